@@ -42,10 +42,10 @@ prop("C01", "c01",
      ["which authenticator failure permits fallback is C04's subject: the model only requires that some authenticator "
       "succeeded and nothing executed before it panicked", "redirect codes are 3xx, status overrides left at defaults (C12)"],
      level="Randomised generated search over pipelines x outcome vectors x error pipelines x entry points on the fully "
-           "assembled real services (only step outcomes are scripted); bounded exploration.",
+           "assembled real services (only step outcomes are scripted), plus a race-detector stress of requests of two kinds through the same rules; bounded exploration.",
      note="Trusted: the scripted probe mechanisms return exactly the scripted outcome; the converse direction (model allows "
           "=> allowed) is measured and reported in labels, not asserted.",
-     technique="property-based testing: reference interpreter (necessary condition) on assembled services, 3 entry points")
+     technique="property-based testing: reference interpreter (necessary condition) on assembled services, 3 entry points + -race stress of concurrent requests with a per-request decision oracle")
 
 prop("C03", "c03",
      "Generated matcher definitions (scheme unset/http/https; method lists with ALL, !X, duplicates, non-standard methods; "
@@ -117,7 +117,7 @@ prop("C14", "c14",
      level="Complete enumeration of the stage-inheritance configuration space plus randomised search over orderings and "
            "malformed references, observed behaviourally through the trace of executed probe mechanisms on the assembled service.",
      note="Trusted: probe mechanisms trace exactly when executed.",
-     technique="exhaustive enumeration + property-based testing against a reference computation of the effective pipeline")
+     technique="exhaustive enumeration + property-based testing against a reference computation of the effective pipeline + -race stress of rules sharing inherited stages")
 
 prop("C04", "c04",
      "Chains of 1-4 real authenticators (anonymous, unauthorized, basic_auth, jwt, oauth2_introspection, generic) with "
@@ -307,7 +307,7 @@ prop("C16", "c16",
      level="Randomised generated search over key stores x claims x TTLs with an independent verifier, plus a race-detector "
            "stress of issuance vs reload; bounded exploration.",
      note="Trusted: Go standard library crypto; the race detector for the concurrent part.",
-     technique="property-based testing with reference verifier + -race stress with invariant over every issued token")
+     technique="property-based testing with reference verifier + -race stress with invariant over every issued token + generated schedules on an instrumented signer (with and without token cache)")
 
 prop("C07", "c07",
      "Engine A (owned schedules): repository_impl.go and radixtree/tree.go of the current tree are instrumented "
